@@ -301,3 +301,67 @@ fn c07_every_callback_hands_the_wrapped_layer_a_filtered_context() {
     assert!(PROBE_SAW_ACCEPTED.load(VSeq) == 1, "C07.Filtered.context.accepted_span_stays_visible");
     assert!(PROBE_PARENT_OF_3.load(VSeq) == 1, "C07.Filtered.context.parent_lookup_skips_the_rejected_ancestor");
 }
+
+// ---------- ancestor walks through a filtered Context: the wrapped layer sees exactly the ancestors its own filter
+// accepted, in order, however MANY consecutive rejected ones lie in between (parent(), chained parent(), scope())
+vstatic!(WALK_PARENT_OF_4: VAtomicUsize = VAtomicUsize::new(99));
+vstatic!(WALK_CHAIN: VAtomicUsize = VAtomicUsize::new(99));
+vstatic!(WALK_SCOPE: VAtomicUsize = VAtomicUsize::new(99));
+vstatic!(WALK_MODE: VAtomicUsize = VAtomicUsize::new(0));
+struct VWalker;
+impl Subscribe<VRoot> for VWalker {
+    fn on_event(&self, _: &Event<'_>, ctx: Context<'_, VRoot>) {
+        if let Some(s) = ctx.span(&span::Id::from_u64(4)) {
+            if WALK_MODE.load(VSeq) == 0 {
+                WALK_PARENT_OF_4.store(s.parent().map(|p| p.id().into_u64()).unwrap_or(0) as usize, VSeq);
+                let mut chain = 0usize; let mut cur = s.parent();
+                while let Some(p) = cur { chain = chain * 8 + p.id().into_u64() as usize; cur = p.parent(); }
+                WALK_CHAIN.store(chain, VSeq);
+            } else {
+                let mut code = 0usize;
+                for sp in s.scope() { code = code * 8 + sp.id().into_u64() as usize; }
+                WALK_SCOPE.store(code, VSeq);
+            }
+        }
+    }
+}
+fn walk_body(mode: usize) {
+    WALK_MODE.store(mode, VSeq);
+    let mut root = VRoot::empty();
+    root.next_filter = nd(); kani::assume(root.next_filter < 63);
+    let k = root.next_filter;
+    let other_bits: u64 = nd();
+    // chain 1 <- 2 <- 3 <- 4; spans 1..3 each accepted or rejected by THIS filter, span 4 accepted; other filters' bits arbitrary
+    let acc: [bool; 4] = [nd(), nd(), nd(), true];
+    let mut i = 1;
+    while i <= 4 {
+        root.exists[i] = true; root.parent[i] = (i - 1) as u64;
+        root.bits[i] = if acc[i - 1] { other_bits & !(1u64 << k) } else { other_bits | (1u64 << k) };
+        i += 1;
+    }
+    let mut layer = Filtered::new(VWalker, VFil::accept(true));
+    Subscribe::<VRoot>::on_subscribe(&mut layer, &mut root);
+    thread_state(0);
+    let vs = VMETA.fields().value_set(&[]); let ev = Event::new(&VMETA, &vs);
+    Subscribe::<VRoot>::on_event(&layer, &ev, Context::__verif_new(&root));
+    // spec: the visible ancestors of 4, leaf to root
+    let mut want_chain = 0usize; let mut first = 0usize; let mut j = 3;
+    while j >= 1 { if acc[j - 1] { if first == 0 { first = j; } want_chain = want_chain * 8 + j; } j -= 1; }
+    if mode == 0 {
+        assert!(WALK_PARENT_OF_4.load(VSeq) == first, "C07.context.parent_is_the_NEAREST_ancestor_this_filter_accepted");
+        assert!(WALK_CHAIN.load(VSeq) == want_chain, "C07.context.chained_parent_calls_yield_exactly_the_accepted_ancestors_in_order");
+    }
+    // scope() starts with the span itself
+    let mut want_scope = 4usize; let mut j = 3;
+    while j >= 1 { if acc[j - 1] { want_scope = want_scope * 8 + j; } j -= 1; }
+    if mode == 1 { assert!(WALK_SCOPE.load(VSeq) == want_scope, "C07.context.scope_yields_exactly_the_span_and_its_accepted_ancestors_leaf_to_root"); }
+    kani::cover!(!acc[1] && !acc[2] && acc[0], "C07.reachable.two_rejected_ancestors_in_a_row");
+}
+#[kani::proof]
+#[kani::unwind(7)]
+#[kani::stub(core::fmt::Formatter::pad, pad_stub)]
+fn c07_parent_walk_skips_every_rejected_ancestor_however_many_in_a_row() { walk_body(0) }
+#[kani::proof]
+#[kani::unwind(7)]
+#[kani::stub(core::fmt::Formatter::pad, pad_stub)]
+fn c07_scope_walk_skips_every_rejected_ancestor_however_many_in_a_row() { walk_body(1) }
